@@ -671,9 +671,8 @@ def _run_ttt(case, ctx):
     ctx.state()
     items = [("outer", [], [])]
     for k in range(1, min(len(sa), len(sb)) + 1):
+        # both contraction lists in every order: the i-th listed mode of the receiver pairs with the i-th of the argument
         for da in itertools.permutations(range(len(sa)), k):
-            if list(da) != sorted(da):
-                continue
             for db in itertools.permutations(range(len(sb)), k):
                 if all(sa[i] == sb[j] for i, j in zip(da, db)):
                     items.append(("inner" if k == len(sa) == len(sb) else "contracted", list(da), list(db)))
